@@ -4,6 +4,7 @@
 package world
 
 import (
+	"bytes"
 	"context"
 	"encoding/json"
 	"fmt"
@@ -238,6 +239,10 @@ type Deployment struct {
 	OK     bool
 	By     string // goroutine that deployed
 	Closes atomic.Int32
+	// SignalWritten: the engine's ATP client wrote a signal message to this deployment's connection
+	// (seen in the byte stream). The SDK's server may drop a signal that overtakes the registration of
+	// the step it is meant for; the engine has sent it all the same.
+	SignalWritten atomic.Bool
 	Exited atomic.Bool
 	conn   *Conn
 	w      *World
@@ -480,7 +485,12 @@ func newConn(w *World, d *Deployment) *Conn {
 func (c *Conn) Read(b []byte) (int, error) { return c.s2c.Read(b) }
 
 // Write implements io.Writer (plugin stdin).
-func (c *Conn) Write(b []byte) (int, error) { return c.c2s.Write(b) }
+func (c *Conn) Write(b []byte) (int, error) {
+	if bytes.Contains(b, []byte("signal_id")) {
+		c.d.SignalWritten.Store(true)
+	}
+	return c.c2s.Write(b)
+}
 
 // ID implements deployer.Plugin.
 func (c *Conn) ID() string { return fmt.Sprintf("%s#%d", c.d.Src, c.d.N) }
@@ -498,7 +508,7 @@ func (c *Conn) Kill(why string) {
 func (c *Conn) Close() error {
 	n := c.d.Closes.Add(1)
 	c.sessionOver.Store(true)
-	c.w.Log(Event{Kind: EvConnClose, Src: c.d.Src, Dep: c.d.N, Probe: c.d.Probe, Data: map[string]any{"nth": int(n)}})
+	c.w.Log(Event{Kind: EvConnClose, Src: c.d.Src, Dep: c.d.N, Probe: c.d.Probe, Data: map[string]any{"nth": int(n), "signal_written": c.d.SignalWritten.Load()}})
 	c.cancel()
 	c.s2c.Close()
 	c.c2s.Close()
